@@ -13,6 +13,7 @@ from vf.core import SECTOR, as_handle, rng_for
 from vf.monitors import call
 from vf.writers import hds as whds
 from vf.writers import qcow2 as wq
+from vf.writers import vhdx as wvhdx
 from vf.writers import vmdk as wvmdk
 from vf.writers import vmxcrypt as wvx
 
@@ -107,14 +108,14 @@ def plan(tier: str, seed: int) -> list[dict]:
             cases.append({"k": "rand", "inp": ii, "j": j})
     crafted = ["hv-self", "hv-pair", "hv-chain", "shot-self", "shot-pair", "shot-mid-self", "shot-base-mid", "vmdk-self-parent", "vhdx-self-parent",
                "qcow2-bomb", "vmdk-bomb", "vmtar-gzbomb", "vmx-nested", "vmx-giant", "keystore-deep", "qcow2-snap-zero-table", "vmdk-desc-giant",
-               "big-unit", "big-unit"]
+               "big-unit", "big-unit", "vhdx-diff-bitmap", "layered-corrupt", "layered-corrupt", "layered-corrupt", "layered-corrupt", "layered-corrupt", "layered-corrupt"]
     crafted = [(c, j) for j, c in enumerate(crafted)]
     # every (text grammar, repeated token) combination, in both tiers
     for idx in range(len(TOKENS) * len(TARGETS)):
         cases.append({"k": "crafted", "c": "text-repeat", "r": idx, "weight": 2})
     for c, j in crafted:
         for r in range(4 if tier == "quick" else 40):
-            cases.append({"k": "crafted", "c": c, "r": r + 1000 * j if c in ("big-unit", "text-repeat") else r, "weight": 4})
+            cases.append({"k": "crafted", "c": c, "r": r + 1000 * j if c in ("big-unit", "text-repeat", "layered-corrupt") else r, "weight": 4})
     return cases
 
 
@@ -362,10 +363,110 @@ def _crafted(case, ctx, res):
         body = body.ljust(bomb_sector * SECTOR, b"\0") + rec.ljust(-(-len(rec) // SECTOR) * SECTOR, b"\0")
         raw = bytearray(body + tail)
         struct.pack_into("<I", raw, gto, bomb_sector)
+        if case["r"] % 2:
+            # the two header copies disagree: the sector-0 copy (superseded by the footer) claims an enormous grain size,
+            # a huge capacity or other nonsense; whatever bounds the inflate must come from the copy in force
+            which = rng.choice(["grain", "capacity", "ngte"])
+            if which == "grain":
+                struct.pack_into("<Q", raw, 20, rng.choice([1 << 31, 1 << 40, (1 << 63) - 1]))
+            elif which == "capacity":
+                struct.pack_into("<Q", raw, 12, rng.choice([1 << 50, (1 << 64) - 1]))
+            else:
+                struct.pack_into("<I", raw, 44, 0xFFFFFFFF)
+            label += f":stale-header-{which}"
         in_len = len(raw)
         v = VMDK(io.BytesIO(bytes(raw)))
         ctx.mem.begin()
         o = call(lambda: [len(v.readoffset(a, n)) for a, n in ((0, 512), (0, 4096), (2048, 8192))])
+    elif c == "vhdx-diff-bitmap":
+        # a differencing VHDX whose partially-present blocks have no usable sector bitmap (the chunk's bitmap entry is in a
+        # state other than present, or points nowhere): any outcome but an endless loop
+        from vf import chains
+        from dissect.hypervisor.disk.vhdx import VHDX
+
+        class _C:
+            def tmpdir(self_inner):
+                return ctx.tmpdir()
+
+        op = chains.vhdx_diff(rng, _C(), depth=2, parent_config="relative", open_mode="path")
+        top = Path(op.stream.fh.name) if hasattr(op.stream.fh, "name") else None
+        raw = bytearray(top.read_bytes())
+        rt = raw[3 * 65536 : 4 * 65536]
+        nreg = struct.unpack_from("<I", rt, 8)[0]
+        bat_off = next(struct.unpack_from("<Q", rt, 16 + 32 * i + 16)[0] for i in range(nreg) if rt[16 + 32 * i : 32 + 32 * i] == wvhdx.BAT_GUID)
+        ratio = (2**23 * 512) // (1 << 20)
+        ent = bat_off + 8 * ratio  # the first chunk's sector-bitmap entry
+        old = struct.unpack_from("<Q", raw, ent)[0]
+        new = rng.choice([0, 1, 2, 3, 4, 5, 7, (old & ~7) | rng.choice([0, 1, 2, 3]), 6 | (0xFFFFF << 20), 6])
+        struct.pack_into("<Q", raw, ent, new)
+        top.write_bytes(bytes(raw))
+        in_len = len(raw)
+        label = f"crafted:vhdx-diff-bitmap:{new & 7}"
+
+        def f():
+            v = VHDX(top)
+            return [len(v.readoffset(a, n)) for a, n in ((0, 4096), (1 << 20, 8192), (v.size - 4096, 4096), (0, min(v.size, 3 << 20)))]
+
+        ctx.mem.begin()
+        o = call(f)
+    elif c == "layered-corrupt":
+        # chains opened by path (differencing VHDX, VMDK delta over a parent, Parallels snapshot chains): random corruption
+        # of the top layer's file, where the reader's loops involve a parent as well
+        from vf import chains
+
+        class _C:
+            def tmpdir(self_inner):
+                return ctx.tmpdir()
+
+        kind = ["vhdx", "vmdk", "hdd"][case["r"] % 3]
+        if kind == "vhdx":
+            from dissect.hypervisor.disk.vhdx import VHDX
+
+            op = chains.vhdx_diff(rng, _C(), depth=rng.choice([2, 3]), parent_config="relative", open_mode="path")
+            top = Path(op.stream.fh.name)
+            reopen = lambda: VHDX(top)  # noqa: E731
+        elif kind == "vmdk":
+            from dissect.hypervisor.disk.vmdk import VMDK
+
+            op = chains.vmdk_delta(rng, _C(), depth=rng.choice([2, 3]), parent_config="samedir", child_kind=rng.choice(["descriptor", "embedded"]))
+            top = Path(op.info["top_path"])
+            reopen = lambda: VMDK(top)  # noqa: E731
+        else:
+            from dissect.hypervisor.disk.hdd import HDD
+
+            op = chains.hdd_snapshots(rng, _C(), depth=rng.choice([2, 3]), top_mode="default", nstorages=1)
+            hd = Path(op.hdd.path)
+            top = max((p for p in hd.iterdir() if p.suffix == ".hds"), key=lambda p: p.stat().st_mtime)
+            reopen = lambda: HDD(hd).open()  # noqa: E731
+        targets = [top]
+        if kind == "vmdk":
+            targets += [p for p in top.parent.iterdir() if p.is_file() and p != top and p.stat().st_size < (4 << 20)][:2]
+        tgt = rng.choice(targets)
+        raw = bytearray(tgt.read_bytes())
+        for _ in range(rng.randrange(1, 4)):
+            if not raw:
+                break
+            pos = rng.randrange(len(raw))
+            if rng.random() < 0.7:
+                # prefer bytes that carry something (headers, table entries) over zero padding
+                for _try in range(200):
+                    cand = rng.randrange(min(len(raw), 6 << 20))
+                    if raw[cand]:
+                        pos = cand
+                        break
+            n_ = rng.randrange(1, 9)
+            raw[pos : pos + n_] = bytes(rng.randrange(256) for _ in range(n_))[: len(raw) - pos]
+        tgt.write_bytes(bytes(raw))
+        in_len = len(raw)
+        label = f"crafted:layered-corrupt:{kind}"
+
+        def f():
+            v = reopen()
+            return [len(v.readoffset(a, n)) for a, n in ((0, 4096), (v.size // 2, 8192), (max(0, v.size - 4096), 4096), (0, min(v.size, 2 << 20)))]
+
+        ctx.mem.begin()
+        o = call(f)
+        res["sets"]["layered_kinds"] = [kind]
     elif c == "vmtar-gzbomb":
         from dissect.hypervisor.util import vmtar
 
